@@ -30,6 +30,12 @@ of an implementation that replays the command line a second time. -/
 theorem C12_parsed_once : Facts.flagParseOnlyIfUnparsed = true := by
   decide
 
+/-- F14m: a flag that exists on the FlagSet already (registered by the application, or by an earlier `Set` over the
+same FlagSet) is not registered again (skip "registered" below) - but its name is still mapped to its field, because the
+entry is recorded before the skip; `Value` sets exactly the visited flags it finds in that map. -/
+theorem C12_existing_flag_keeps_its_field : Facts.flagMapRecordedBeforeSkips = true := by
+  decide
+
 /-- F14 as the proofs below need it: mkname asks the source-specific tag first, then `dials`; a flag name
 that exists already and a source tag "-" skip the field; Value walks only the flags that were set; the
 standard-library source guards the narrowing conversion with willOverflow; every helper's first Set replaces
